@@ -53,7 +53,7 @@ Section Emit.
   (** [CompositeFieldIR::to_tokens] *)
   Definition field_tokens (f : field_ir) : result tokens :=
     let* t := tp_tokens alloc (fi_path f) in
-    if fi_boxed f then Ok (alloc ++ abs_path ["boxed"; "Box"] ++ ["<"] ++ t ++ [">"])
+    if fi_emit_boxed f then Ok (alloc ++ abs_path ["boxed"; "Box"] ++ ["<"] ++ t ++ [">"])
     else Ok t.
 
   Definition compact_attr_of (codec : bool) (f : field_ir) : tokens :=
